@@ -20,7 +20,7 @@ RULE = ('Line sequences from a row grammar: valid 3/4-column snapshot rows (from
         'TypeError; compact_timeslot on drawn integer sets (and exhaustively on all subsets of a 6-element pool, every '
         'input order class) is a strictly increasing bijection onto 0..k-1; read_*(file, keys=True) == parse_*(rows '
         'with timestamps replaced by their rank among the distinct timestamps of the file) for 3- and 4-column snapshot '
-        'files and interaction files (blank / comment noise included). non-trivial = >= 2 valid rows, noise lines of '
+        'files and interaction files (blank / comment noise included), and for two files larger than 1 MiB. non-trivial = >= 2 valid rows, noise lines of '
         '>= 2 different kinds and >= 1 trailing comment.')
 ASSUMPTIONS = ['e > t', 'fields contain no delimiter, comment marker or whitespace', 'rows with more than 4 columns in snapshot '
                'files are not generated (the statement does not say how they are read)',
